@@ -27,6 +27,7 @@ RULE = (
     "other} x backup {none, other, =input, =output} x edit script x try_encodings (default, permutations, subsets) "
     "x {native, memory}. Non-trivial when the content holds a non-ASCII byte; distinct by canonical JSON."
     ' Round 5: input names with several dots and dotted directories, content of the other format than the extension, backup path a proper prefix of the input path.'
+    ' Round 6: backup name equal to the input/output name up to letter case.'
 )
 ASSUMPTIONS = ["Python codecs", "MemoryFS is an honest in-memory filesystem"]
 MONITORS = ["detection", "loaded_content", "mutate_output", "mutate_backup", "input_untouched", "no_other_file",
